@@ -44,6 +44,20 @@ def main():
             elif b % a.nshards != a.shard:
                 continue
             rng = random.Random(f'{a.seed}:{b}')
+            if b % 3 == 1 and table.n * table.m <= 80 and a.prop != 'C15' and not table.tag.startswith('colossal'):
+                # "late" scenario: build A, do nothing with it; build and query a sibling B with the same labels and
+                # another table; only then run A's checked calls (its lattice is first computed AFTER B existed)
+                rec.new(table, b, lv)
+                sib = corpus.Table(table.n, table.m,
+                                   [[j for j in range(1, table.m + 1) if j not in set(r)] for r in table.rows],
+                                   table.tag + ':sibling-first')
+                rec_b = rec_ctx.CtxRecorder(emit, concepts)
+                rec_ctx.drive(rec_b, sib, b, fams, rng, False, nsub=3, nmulti=2, label_variant=lv)
+                rec_ctx.drive(rec, table, b, fams, rng, exq, label_variant=lv, construct=False)
+                del rec_b
+                stats['behaviours'] += 1
+                stats['exhaustive_tables'] += (table.tag[:2] == 'ex' and table.tag[2:3].isdigit())
+                continue
             rec_ctx.drive(rec, table, b, fams, rng, exq, label_variant=lv)
             if b % 3 == 0 and table.n * table.m <= 80 and hasattr(rec, 'ctx') and a.prop != 'C15' \
                     and not table.tag.startswith('colossal'):
